@@ -51,13 +51,21 @@ def radiation_sum(ck, sh, mm, gname, scale):
         # of one request are exercised too
         dth, dph = (7.0, 33.0)
 
-        def fn(th=th, ph=ph):
+        vi = (dirs.index((th, ph)) + sum(map(ord, gname))) % 6          # which single parameter the directly preceding request differs in
+
+        def fn(th=th, ph=ph, vi=vi):
             m = catalogue.build(M, gname)
             n = len(m.pulses)
             I = _box_currents(n, scale)
             _set_currents(m, I)
             m.power = 1.0
             with symx.object_arrays():
+                # earlier requests on the same solved model with other steppings (same starts and counts): the table of the
+                # LAST request must belong to its own directions
+                # earlier requests on the same solved model: every one differs from the next in exactly ONE of the six request
+                # parameters (start, step, count of zenith and azimuth), the last of them from the request under test
+                for za in _request_history(th, dth, ph, dph, vi):
+                    m.compute_far_field(M.Angle(*za[0]), M.Angle(*za[1]))
                 m.compute_far_field(M.Angle(th, dth, 2), M.Angle(ph, dph, 2))
             ff = m.far_field
             ents = []
@@ -84,12 +92,25 @@ def radiation_sum(ck, sh, mm, gname, scale):
             return g
 
         def replay(c, gn, out, th=th, ph=ph):
-            return replay_sum(mm, gname, [complex(x) for x in c['I']], req=(th, dth, ph, dph))
-        prove_paths(ck, 'sum-%s-%g-%g-x%g' % (gname, th, ph, scale), fn, goals, replay, max_paths=16, fork_policy='assume', twin_timeout_ms=500)
+            return replay_sum(mm, gname, [complex(x) for x in c['I']], req=(th, dth, ph, dph), vi=vi)
+        prove_paths(ck, 'sum-%s-%g-%g-x%g' % (gname, th, ph, scale), fn, goals, replay, max_paths=16, fork_policy='assume', twin_timeout_ms=2000, prefer_true=('compute_far_field',))
     ck.bounds.setdefault('radiation_sum', []).append('%s: directions %s, |Re I|,|Im I| <= %g' % (gname, dirs, scale))
 
 
-def replay_sum(mm, gname, I, req=None):
+def _request_history(th, dth, ph, dph, vi):
+    """Two earlier requests; the second differs from the request under test (th, dth, 2; ph, dph, 2) only in parameter vi."""
+    base = [[th, dth, 2], [ph, dph, 2]]
+    var = [[list(base[0]), list(base[1])] for _ in range(6)]
+    var[0][0][0] = th + 3.0          # zenith start
+    var[1][0][1] = dth / 2           # zenith step
+    var[2][0][2] = 3                 # zenith count
+    var[3][1][0] = ph + 11.0         # azimuth start
+    var[4][1][1] = dph / 4           # azimuth step
+    var[5][1][2] = 3                 # azimuth count
+    return [var[(vi + 3) % 6], var[vi]]
+
+
+def replay_sum(mm, gname, I, req=None, vi=None):
     """The property's own sentence on the real code: code vs radiation sum within 1e-4 of the pattern maximum, over a
     10-degree sphere grid, over the very request that gave the candidate (2 x 2) and over a square 3 x 3 request."""
     I = np.array(I, dtype=complex)
@@ -106,6 +127,9 @@ def replay_sum(mm, gname, I, req=None):
         m = catalogue.build(mm, gname)
         m.current = I
         m.power = 1.0
+        if req is not None and vi is not None and zen.number == 2 and azi.number == 2:
+            for za in _request_history(zen.initial, zen.inc, azi.initial, azi.inc, vi):
+                m.compute_far_field(mm.Angle(*za[0]), mm.Angle(*za[1]))
         m.compute_far_field(zen, azi)
         ff = m.far_field
         ref_t = np.zeros(ff.zen.shape, dtype=complex)
